@@ -1,12 +1,14 @@
 (* Property C03 - the model is the intrinsic scene convolved with the PSF exactly as supplied.
    Statements only; proofs in Proofs/ConvProofs.v, Proofs/FluxProofs.v and Base/Dft.v over ramps,
-   point-source code and scene assembly REGENERATED from rendering.py.  PARTIAL: that
+   point-source code and scene assembly REGENERATED from rendering.py.  That
    irfft2(rfft2 a * rfft2 b) is the circular convolution of a and b is proved for the 1-D complex
-   transform on Z_N (Base/Dft.v); its 2-D half-plane form is carried by the numerical correspondence
-   of the irfft2 model (C01) and by the implementation oracle. *)
+   transform on Z_N (Base/Dft.v) and for the 2-D half-plane (real-to-complex / complex-to-real) form the
+   renderers use, for every N >= 1 and all real arrays (Base/Dft2.v); the models of rfft2 / irfft2 are tied
+   to jnp.fft by the numerical correspondence.  PARTIAL: bilinear resampling at fractional positions and the
+   band-limited shift of the Fourier point source are not modelled (implementation oracle only). *)
 From Coq Require Import Reals ZArith.
 From Coquelicot Require Import Coquelicot.
-From PS Require Import Base.RBase Base.Dft Gen.Ramps Gen.Formulas Gen.RenderGlue Proofs.ConvProofs Proofs.FluxProofs.
+From PS Require Import Base.RBase Base.Dft Base.Dft2 Gen.Ramps Gen.Formulas Gen.RenderGlue Proofs.ConvProofs Proofs.FluxProofs Proofs.ConvChain.
 Open Scope R_scope.
 
 (* the PSF is centred on its geometric array centre (P-1)/2 along both axes, using pi itself *)
@@ -69,3 +71,61 @@ Print Assumptions C03_psf_fft_structure.
 Print Assumptions C03_pointsource_fourier.
 Print Assumptions C03_pixel_pointsource_is_stamp.
 Print Assumptions C03_conv_preserves_total.
+
+(* --- two dimensions, in the half-plane form of jnp.fft.rfft2 / irfft2 that conv_fft uses --- *)
+
+(* the transform of a 2-D circular convolution is the product of the transforms *)
+Theorem C03_convolution_theorem_2d : forall N a b ky kx, (0 < N)%nat ->
+  dft2 N (circ_conv2 N a b) ky kx = Cmult (dft2 N a ky kx) (dft2 N b ky kx).
+Proof. exact (fun N a b ky kx HN => dft2_circ_conv2 N HN a b ky kx). Qed.
+
+(* irfft2 recovers every real image from the half plane kx <= N/2 of its transform (Hermitian symmetry proved, not assumed) *)
+Theorem C03_irfft2_inverts_rfft2 : forall N g r c, (0 < N)%nat -> (forall y x, is_real (g y x)) -> (r < N)%nat -> (c < N)%nat ->
+  irfft2 N (dft2 N g) r c = Re (g r c).
+Proof. exact (fun N g r c HN Hg Hr Hc => irfft2_dft2_real N HN g r c Hg Hr Hc). Qed.
+
+(* conv_fft: irfft2(rfft2(image) * rfft2(psf)) is, pixel by pixel, the circular convolution of the two real arrays *)
+Theorem C03_fft_convolution_is_spatial_convolution_2d : forall N a b r c, (0 < N)%nat ->
+  (forall y x, is_real (a y x)) -> (forall y x, is_real (b y x)) -> (r < N)%nat -> (c < N)%nat ->
+  irfft2 N (fun ky kx => Cmult (dft2 N a ky kx) (dft2 N b ky kx)) r c = Re (circ_conv2 N a b r c).
+Proof. exact (fun N a b r c HN Ha Hb Hr Hc => irfft2_product_is_circ_conv2 N HN a b r c Ha Hb Hr Hc). Qed.
+
+(* a unit of light at (row py, column px) reproduces the other array translated to that position: rows to rows,
+   columns to columns, never mirrored or transposed *)
+Theorem C03_impulse_convolution_is_shift_2d : forall N py px b r c, (0 < N)%nat -> (py < N)%nat -> (px < N)%nat ->
+  circ_conv2 N (delta2 py px) b r c = b ((r + (N - py)) mod N)%nat ((c + (N - px)) mod N)%nat.
+Proof. exact (fun N py px b r c HN Hy Hx => circ_conv2_delta N HN py px b r c Hy Hx). Qed.
+
+(* --- the whole chain: PSF_fft = rfft2(psf, s = shape) * ramp_x * ramp_y (ramps regenerated from the source) --- *)
+
+(* every pixel of conv_fft(scene) is sum_{y,x} scene[y,x] * psf[r - y + c0][col - x + c0] (circular indices, psf = the odd
+   (2 c0 + 1)-stamp zero-padded to the frame): the scene convolved with the stamp as supplied, centred on its geometric
+   centre entry, rows to rows and columns to columns *)
+Theorem C03_model_is_scene_convolved_with_centred_psf : forall N a p c0 r c,
+  (0 < N)%nat -> (forall y x, is_real (a y x)) -> (forall y x, is_real (p y x)) -> (r < N)%nat -> (c < N)%nat ->
+  irfft2 N (fun ky kx => Cmult (dft2 N a ky kx)
+              (Cmult (dft2 N p ky kx) (Cmult (cis (ramp_y_phase (INR (2 * c0 + 1)) (INR ky / INR N))) (cis (ramp_x_phase (INR (2 * c0 + 1)) (INR kx / INR N)))))) r c
+  = Re (csum (fun y => csum (fun x => Cmult (a y x) (p (((r + (N - y)) mod N + c0) mod N)%nat (((c + (N - x)) mod N + c0) mod N)%nat)) N) N).
+Proof. exact conv_chain_ramps. Qed.
+
+(* a point of light on an integer pixel renders as the stamp centred on that pixel *)
+Theorem C03_point_source_is_centred_stamp : forall N p c0 py px r c,
+  (0 < N)%nat -> (forall y x, is_real (p y x)) -> (py < N)%nat -> (px < N)%nat -> (r < N)%nat -> (c < N)%nat ->
+  irfft2 N (fun ky kx => Cmult (dft2 N (delta2 py px) ky kx)
+              (Cmult (dft2 N p ky kx) (Cmult (cis (ramp_y_phase (INR (2 * c0 + 1)) (INR ky / INR N))) (cis (ramp_x_phase (INR (2 * c0 + 1)) (INR kx / INR N)))))) r c
+  = Re (p (((r + (N - py)) mod N + c0) mod N)%nat (((c + (N - px)) mod N + c0) mod N)%nat).
+Proof. exact point_source_is_centred_stamp. Qed.
+
+(* jnp.fft.fftfreq lists the upper half of the frequencies as (k - N)/N: the ramps take the same value there *)
+Theorem C03_ramp_negative_frequency : forall N c0 k, (0 < N)%nat ->
+  cis (ramp_y_phase (INR (2 * c0 + 1)) ((INR k - INR N) / INR N)) = cis (ramp_y_phase (INR (2 * c0 + 1)) (INR k / INR N)) /\
+  cis (ramp_x_phase (INR (2 * c0 + 1)) ((INR k - INR N) / INR N)) = cis (ramp_x_phase (INR (2 * c0 + 1)) (INR k / INR N)).
+Proof. exact ramp_negative_frequency. Qed.
+
+Print Assumptions C03_convolution_theorem_2d.
+Print Assumptions C03_irfft2_inverts_rfft2.
+Print Assumptions C03_fft_convolution_is_spatial_convolution_2d.
+Print Assumptions C03_impulse_convolution_is_shift_2d.
+Print Assumptions C03_model_is_scene_convolved_with_centred_psf.
+Print Assumptions C03_point_source_is_centred_stamp.
+Print Assumptions C03_ramp_negative_frequency.
